@@ -44,6 +44,11 @@ C06_CLAIM = ("Apalache: along a line of ANY length with values of any size the c
              "the directional integral (sum times cell length), the mean times the extent equals the integral, and sums / integrals / "
              "cumulative integrals are linear in the field (spec/C06Core.tla, inductive invariant of `take the next cell`; %d of %d "
              "obligations, reported, not relied on)")
+# spec/C11Core.tla: where the frequencies of an axis of n cells sit before and after the shift
+C11_OBLIGATIONS = _inits("C11_FrequencyCount", "C11_FrequencyRange", "C11_ShiftSortsFrequencies", "C11_UnshiftInvertsShift", "C11_ZeroFrequencyCell")
+C11_CLAIM = ("Apalache: for an axis of ANY length n the frequencies -(n div 2) .. (n-1) div 2 occur once each, the shift sorts them (cell p of "
+             "the k-mesh holds frequency p - n div 2, the zero frequency cell n div 2), and the inverse shift undoes the shift for odd and "
+             "even n (spec/C11Core.tla; %d of %d obligations, reported, not relied on)")
 C14_CLAIM = ("Apalache: a subregion inside the mesh region, on cell faces and a whole positive number of cells long stays so under translation, "
              "scaling by any non-zero integer factor about any point and the half turn (spec/C14Core.tla, inductive invariant for "
              "unbounded coordinates; %d of %d obligations, reported, not relied on)")
